@@ -49,7 +49,7 @@ def run(ctx):
     ctx.rule = RULE
     ctx.assumptions = ['"reports no problem" is judged from the exit status and from e2fsck\'s own XML problem log of the second run', 'first runs that do not claim success (exit bits 4,8,16,32,128, signals, CPU limit) are counted, not judged']
     replay_tier(ctx)
-    n = int((500 if ctx.tier == "quick" else 12000) * ctx.scale)
+    n = int((500 if ctx.tier == "quick" else 4000) * ctx.scale)
     hyp.run_property(ctx, strategy, body, envinit, n)
 
 def replay_tier(ctx):
